@@ -47,6 +47,9 @@ PATCHES = {
     "cfi": ("pushq %rax\n.cfi_adjust_cfa_offset 8\npopq %rax\n.cfi_adjust_cfa_offset -8", {}, None),
     # two IDENTICAL directives at one position (CFI directives are not idempotent), balanced by one directive
     "cfidup": ("pushq %rax\npushq %rax\n.cfi_adjust_cfa_offset 8\n.cfi_adjust_cfa_offset 8\npopq %rax\npopq %rax\n.cfi_adjust_cfa_offset -16", {}, None),
+    # balanced CFI whose LAST directive follows a label at the very end of the patch; several labels at one position each with a directive
+    "cfilab": ("pushq %rax\n.cfi_adjust_cfa_offset 8\npopq %rax\nPX:\n.cfi_adjust_cfa_offset -8", {"PX": 2}, None),
+    "cfistack": ("nop\nPA:\n.cfi_remember_state\nPB:\n.cfi_adjust_cfa_offset 16\nPC:\n.cfi_restore_state\nnop", {"PA": 1, "PB": 1, "PC": 1}, None),
     # data embedded in a code patch, jumped over
     "embdata": ("jmp PD\n.byte 1, 2\nPD:\nnop", {"PD": 4}, None),
     "symexpr": ("movq L2(%rip), %rax", {}, None),
